@@ -3,7 +3,7 @@
    order, same limits, same validity checks at decode time (Transaction.isValid).  Public keys are 33 opaque
    bytes (prefix 2/3, or the uncompressed form 4 re-encoded compressed); curve membership is NOT modelled.
    Correct behaviour is modelled where the unchanged tree has a listed defect: ConditionBoolean accepts only
-   0/1 (F15); a transaction's identity is the hash/size of its RE-ENCODING on every path (F9). *)
+   0/1 (F16); a transaction's identity is the hash/size of its RE-ENCODING on every path (F9). *)
 From NG Require Import Common.Tactics Codec.Bigint Codec.Wire.
 Open Scope Z_scope.
 
